@@ -564,9 +564,12 @@ func singleQuoted(s string) string {
 
 // needsSingleQuoting reports plain scalars that goccy leaves unquoted
 // but that decoders read as something else entirely: the "?" explicit
-// key indicator alone or followed by a space, and the "<<" merge key.
+// key indicator alone or followed by a space, the "<<" merge key, also
+// as part of a longer plain key such as "a<<", and the "..." document
+// end marker at the start of a scalar.
 func needsSingleQuoting(s string) bool {
-	return s == "?" || strings.HasPrefix(s, "? ") || s == "<<"
+	return s == "?" || strings.HasPrefix(s, "? ") || strings.Contains(s, "<<") ||
+		strings.HasPrefix(s, "...")
 }
 
 // quoteScalar returns the pre-quoted rendering of a single-line string
@@ -575,10 +578,12 @@ func needsSingleQuoting(s string) bool {
 // for those of [shouldQuote].
 func quoteScalar(s string) string {
 	switch {
+	case shouldQuote(s) || strings.ContainsAny(s, "\n\r"):
+		// This includes strings that span lines, which the single quoted
+		// form would fold.
+		return strconv.Quote(s)
 	case needsSingleQuoting(s):
 		return singleQuoted(s)
-	case shouldQuote(s):
-		return strconv.Quote(s)
 	}
 	return ""
 }
@@ -732,7 +737,10 @@ func yamlUnprintable(s string) bool {
 // or tab would need an explicit indentation indicator, which goccy
 // does not emit.
 func blockLiteralSafe(s string) bool {
-	if len(s) == 0 || s[0] == ' ' || s[0] == '\t' {
+	if len(s) == 0 || s[0] == ' ' || s[0] == '\t' || s[0] == '\n' {
+		// This also excludes strings that start with, or only consist of,
+		// line breaks: a block scalar without a first content line loses
+		// them, or cannot be told from the entry that follows it.
 		return false
 	}
 	if strings.Contains(s, " \n") || strings.HasSuffix(s, " ") {
